@@ -3,14 +3,15 @@
 # exploration: the same sources, built as package `ndarray-interp-instr` (lib name unchanged) with
 # `extern crate verif_std as std;` in front of lib.rs, so that every std::sync primitive the crate
 # uses is shuttle's (each atomic access / lock operation becomes a scheduling point).
-ROOT=$(dirname "$(dirname "$(readlink -f "$0")")")
+ROOT=${NIMC_ROOT:-$(dirname "$(dirname "$(readlink -f "$0")")")}
+REPO=${NIMC_REPO:-/repo}
 D="$ROOT/mc/.instr/ni"
 mkdir -p "$D"
-rsync -a --delete /repo/src/ "$D/src/" || exit 2
-python3 - "$D" <<'PY' || exit 2
+rsync -a --delete "$REPO/src/" "$D/src/" || exit 2
+python3 - "$D" "$REPO" <<'PY' || exit 2
 import re, sys
 d = sys.argv[1]
-src = open('/repo/Cargo.toml').read()
+src = open(sys.argv[2] + '/Cargo.toml').read()
 # the [dependencies] table of the subject, verbatim
 m = re.search(r'^\[dependencies\]\n(.*?)(?=^\[)', src, re.S | re.M)
 deps = m.group(1) if m else 'ndarray = "0.16"\nnum-traits = "0.2"\nthiserror = "2.0"\n'
